@@ -9,183 +9,197 @@ open CC.Spec.LSeq (Op Out Params)
 
 namespace SList
 
-theorem step_ok (P : Params) (a b : List Nat) (m : Mem) (hlive : a.length + b.length ≤ m.live) : ∀ (op : Op),
-    ∃ a' b', StepOk false P a b op m (step P (ofList a, ofList b) op m) a' b'
-  | .addFirst x => by
-    by_cases ha : m.alloc.1 = true
-    · exact ⟨x :: a, b, StepOk.of { st := some .ok } _ _ m.alloc.2 1 0 (by simp [step, addFirst_ofList, ha, LSeq.addFirst]) (by simp)
-        (by intro _; simp [LSeq.step, LSeq.addFirst]) (Mem.eff_alloc_true m ha) (by simp; omega) (by intro _; simp)⟩
-    · have ha' : m.alloc.1 = false := by simpa using ha
-      exact ⟨a, b, StepOk.of { st := some .errAlloc } _ _ m.alloc.2 0 0 (by simp [step, addFirst_ofList, ha']) (by simp)
-        (by simp) (Mem.eff_alloc_false m ha') rfl (by intro hs; simp_all [Mem.alloc_nil m hs, Mem.allocChain_nil _ 0 m hs])⟩
-  | .addLast x => by
-    by_cases ha : m.alloc.1 = true
-    · exact ⟨a ++ [x], b, StepOk.of { st := some .ok } _ _ m.alloc.2 1 0 (by simp [step, addLast_ofList, ha, LSeq.addLast]) (by simp)
-        (by intro _; simp [LSeq.step, LSeq.addLast]) (Mem.eff_alloc_true m ha) (by simp; omega) (by intro _; simp)⟩
-    · have ha' : m.alloc.1 = false := by simpa using ha
-      exact ⟨a, b, StepOk.of { st := some .errAlloc } _ _ m.alloc.2 0 0 (by simp [step, addLast_ofList, ha']) (by simp)
-        (by simp) (Mem.eff_alloc_false m ha') rfl (by intro hs; simp_all [Mem.alloc_nil m hs, Mem.allocChain_nil _ 0 m hs])⟩
-  | .addAt x i => by
+theorem step_ok_aux (P : Params) (t1 t2 : Triple) (a b : List Nat) (m : Mem) (hlive : a.length ≤ m.liveT t1) : ∀ (op : Op),
+    ((op = .splice ∨ ∃ i, op = .spliceAt i) → t1 = t2) →
+    ∃ a' b' t1' t2', StepOk false P t1 t2 a b op m (step P (ofList t1 a, ofList t2 b) op m) a' b' t1' t2'
+  | .addFirst x, _ => by
+    by_cases ha : (m.allocT t1).1 = true
+    · exact ⟨x :: a, b, t1, t2, StepOk.of { st := some .ok } _ (m.allocT t1).2 1 0 (by simp [step, addFirst_ofList, ha, LSeq.addFirst]) (by simp)
+        (by intro _; simp [LSeq.step, LSeq.addFirst]) (Mem.eff_alloc_true t1 m ha) (by simp; omega) (by intro _; simp)⟩
+    · have ha' : (m.allocT t1).1 = false := by simpa using ha
+      exact ⟨a, b, t1, t2, StepOk.of { st := some .errAlloc } _ (m.allocT t1).2 0 0 (by simp [step, addFirst_ofList, ha']) (by simp)
+        (by simp) (Mem.eff_alloc_false t1 m ha') rfl (by intro hs; simp_all [Mem.allocT_nil m t1 hs, Mem.allocChain_nil t1 _ 0 m hs])⟩
+  | .addLast x, _ => by
+    by_cases ha : (m.allocT t1).1 = true
+    · exact ⟨a ++ [x], b, t1, t2, StepOk.of { st := some .ok } _ (m.allocT t1).2 1 0 (by simp [step, addLast_ofList, ha, LSeq.addLast]) (by simp)
+        (by intro _; simp [LSeq.step, LSeq.addLast]) (Mem.eff_alloc_true t1 m ha) (by simp; omega) (by intro _; simp)⟩
+    · have ha' : (m.allocT t1).1 = false := by simpa using ha
+      exact ⟨a, b, t1, t2, StepOk.of { st := some .errAlloc } _ (m.allocT t1).2 0 0 (by simp [step, addLast_ofList, ha']) (by simp)
+        (by simp) (Mem.eff_alloc_false t1 m ha') rfl (by intro hs; simp_all [Mem.allocT_nil m t1 hs, Mem.allocChain_nil t1 _ 0 m hs])⟩
+  | .addAt x i, _ => by
     by_cases hi : i < a.length
-    · by_cases ha : m.alloc.1 = true
-      · exact ⟨a.insertIdx i x, b, StepOk.of { st := some .ok } _ _ m.alloc.2 1 0
+    · by_cases ha : (m.allocT t1).1 = true
+      · exact ⟨a.insertIdx i x, b, t1, t2, StepOk.of { st := some .ok } _ (m.allocT t1).2 1 0
           (by simp [step, addAt_ofList, ha, LSeq.addAt, hi]) (by simp)
-          (by intro _; simp [LSeq.step, LSeq.addAt, hi]) (Mem.eff_alloc_true m ha)
+          (by intro _; simp [LSeq.step, LSeq.addAt, hi]) (Mem.eff_alloc_true t1 m ha)
           (by simp [List.length_insertIdx, Nat.le_of_lt hi]; omega) (by intro _; simp)⟩
-      · have ha' : m.alloc.1 = false := by simpa using ha
-        exact ⟨a, b, StepOk.of { st := some .errAlloc } _ _ m.alloc.2 0 0
+      · have ha' : (m.allocT t1).1 = false := by simpa using ha
+        exact ⟨a, b, t1, t2, StepOk.of { st := some .errAlloc } _ (m.allocT t1).2 0 0
           (by simp [step, addAt_ofList, ha', LSeq.addAt, hi]) (by simp)
-          (by simp) (Mem.eff_alloc_false m ha') rfl (by intro hs; simp_all [Mem.alloc_nil m hs, Mem.allocChain_nil _ 0 m hs])⟩
-    · exact ⟨a, b, StepOk.of { st := some .errOutOfRange } _ _ m 0 0 (by simp [step, addAt_ofList, LSeq.addAt, hi]) (by simp)
-        (by intro _; simp [LSeq.step, LSeq.addAt, hi]) (Mem.Eff.rfl' m) rfl (by intro _; simp)⟩
-  | .addAll => by
+          (by simp) (Mem.eff_alloc_false t1 m ha') rfl (by intro hs; simp_all [Mem.allocT_nil m t1 hs, Mem.allocChain_nil t1 _ 0 m hs])⟩
+    · exact ⟨a, b, t1, t2, StepOk.of { st := some .errOutOfRange } _ m 0 0 (by simp [step, addAt_ofList, LSeq.addAt, hi]) (by simp)
+        (by intro _; simp [LSeq.step, LSeq.addAt, hi]) (Mem.Eff.rfl' t1 m) rfl (by intro _; simp)⟩
+  | .addAll, _ => by
     by_cases hy : b = []
-    · exact ⟨a, b, StepOk.of { st := some .ok } _ _ m 0 0 (by simp [step, addAll_ofList, hy]) (by simp)
-        (by intro _; simp [LSeq.step, LSeq.addAll, hy]) (Mem.Eff.rfl' m) rfl (by intro _; simp)⟩
-    · by_cases ha : (m.allocChain b.length 0).1 = true
-      · exact ⟨a ++ b, b, StepOk.of { st := some .ok } _ _ (m.allocChain b.length 0).2 b.length 0
+    · exact ⟨a, b, t1, t2, StepOk.of { st := some .ok } _ m 0 0 (by simp [step, addAll_ofList, hy]) (by simp)
+        (by intro _; simp [LSeq.step, LSeq.addAll, hy]) (Mem.Eff.rfl' t1 m) rfl (by intro _; simp)⟩
+    · by_cases ha : (m.allocChain t1 b.length 0).1 = true
+      · exact ⟨a ++ b, b, t1, t2, StepOk.of { st := some .ok } _ (m.allocChain t1 b.length 0).2 b.length 0
           (by simp [step, addAll_ofList, hy, ha, LSeq.addAll]) (by simp)
-          (by intro _; simp [LSeq.step, LSeq.addAll]) (Mem.eff_allocChain_true m _ ha) (by simp) (by intro _; simp)⟩
-      · have ha' : (m.allocChain b.length 0).1 = false := by simpa using ha
-        exact ⟨a, b, StepOk.of { st := some .errAlloc } _ _ (m.allocChain b.length 0).2 0 0
-          (by simp [step, addAll_ofList, hy, ha']) (by simp) (by simp) (Mem.eff_allocChain_false m _ ha') rfl (by intro hs; simp_all [Mem.alloc_nil m hs, Mem.allocChain_nil _ 0 m hs])⟩
-  | .addAllAt i => by
+          (by intro _; simp [LSeq.step, LSeq.addAll]) (Mem.eff_allocChain_true t1 m _ ha) (by simp) (by intro _; simp)⟩
+      · have ha' : (m.allocChain t1 b.length 0).1 = false := by simpa using ha
+        exact ⟨a, b, t1, t2, StepOk.of { st := some .errAlloc } _ (m.allocChain t1 b.length 0).2 0 0
+          (by simp [step, addAll_ofList, hy, ha']) (by simp) (by simp) (Mem.eff_allocChain_false t1 m _ ha') rfl (by intro hs; simp_all [Mem.allocT_nil m t1 hs, Mem.allocChain_nil t1 _ 0 m hs])⟩
+  | .addAllAt i, _ => by
     by_cases hy : b = []
-    · exact ⟨a, b, StepOk.of { st := some .ok } _ _ m 0 0 (by simp [step, addAllAt_ofList, LSeq.addAllAt, hy]) (by simp)
-        (by intro _; simp [LSeq.step, LSeq.addAllAt, hy]) (Mem.Eff.rfl' m) rfl (by intro _; simp)⟩
+    · exact ⟨a, b, t1, t2, StepOk.of { st := some .ok } _ m 0 0 (by simp [step, addAllAt_ofList, LSeq.addAllAt, hy]) (by simp)
+        (by intro _; simp [LSeq.step, LSeq.addAllAt, hy]) (Mem.Eff.rfl' t1 m) rfl (by intro _; simp)⟩
     · by_cases hi : i < a.length
-      · by_cases ha : (m.allocChain b.length 0).1 = true
-        · exact ⟨a.take i ++ b ++ a.drop i, b, StepOk.of { st := some .ok } _ _ (m.allocChain b.length 0).2 b.length 0
+      · by_cases ha : (m.allocChain t1 b.length 0).1 = true
+        · exact ⟨a.take i ++ b ++ a.drop i, b, t1, t2, StepOk.of { st := some .ok } _ (m.allocChain t1 b.length 0).2 b.length 0
             (by simp [step, addAllAt_ofList, LSeq.addAllAt, hy, hi, ha]) (by simp)
-            (by intro _; simp [LSeq.step, LSeq.addAllAt, hy, hi]) (Mem.eff_allocChain_true m _ ha)
+            (by intro _; simp [LSeq.step, LSeq.addAllAt, hy, hi]) (Mem.eff_allocChain_true t1 m _ ha)
             (by simp [List.length_take, List.length_drop]; omega) (by intro _; simp)⟩
-        · have ha' : (m.allocChain b.length 0).1 = false := by simpa using ha
-          exact ⟨a, b, StepOk.of { st := some .errAlloc } _ _ (m.allocChain b.length 0).2 0 0
+        · have ha' : (m.allocChain t1 b.length 0).1 = false := by simpa using ha
+          exact ⟨a, b, t1, t2, StepOk.of { st := some .errAlloc } _ (m.allocChain t1 b.length 0).2 0 0
             (by simp [step, addAllAt_ofList, LSeq.addAllAt, hy, hi, ha']) (by simp) (by simp)
-            (Mem.eff_allocChain_false m _ ha') rfl (by intro hs; simp_all [Mem.alloc_nil m hs, Mem.allocChain_nil _ 0 m hs])⟩
-      · exact ⟨a, b, StepOk.of { st := some .errOutOfRange } _ _ m 0 0
+            (Mem.eff_allocChain_false t1 m _ ha') rfl (by intro hs; simp_all [Mem.allocT_nil m t1 hs, Mem.allocChain_nil t1 _ 0 m hs])⟩
+      · exact ⟨a, b, t1, t2, StepOk.of { st := some .errOutOfRange } _ m 0 0
           (by simp [step, addAllAt_ofList, LSeq.addAllAt, hy, hi]) (by simp)
-          (by intro _; simp [LSeq.step, LSeq.addAllAt, hy, hi]) (Mem.Eff.rfl' m) rfl (by intro _; simp)⟩
-  | .splice => by
+          (by intro _; simp [LSeq.step, LSeq.addAllAt, hy, hi]) (Mem.Eff.rfl' t1 m) rfl (by intro _; simp)⟩
+  | .splice, hc => by
     by_cases hy : b = []
-    · exact ⟨a, b, StepOk.of { st := some .ok } _ _ m 0 0 (by simp [step, splice_ofList, LSeq.splice, hy]) (by simp)
-        (by intro _; simp [LSeq.step, LSeq.splice, hy]) (Mem.Eff.rfl' m) rfl (by intro _; simp)⟩
-    · exact ⟨a ++ b, [], StepOk.of { st := some .ok } _ _ m 0 0 (by simp [step, splice_ofList, LSeq.splice, hy]) (by simp)
-        (by intro _; simp [LSeq.step, LSeq.splice]) (Mem.Eff.rfl' m) (by simp) (by intro _; simp)⟩
-  | .spliceAt i => by
+    · exact ⟨a, b, t1, t2, StepOk.of { st := some .ok } _ m 0 0 (by simp [step, splice_ofList, LSeq.splice, hy]) (by simp)
+        (by intro _; simp [LSeq.step, LSeq.splice, hy]) (Mem.Eff.rfl' t1 m) rfl (by intro _; simp)⟩
+    · have ht : t1 = t2 := hc (Or.inl rfl)
+      subst ht
+      exact ⟨a ++ b, [], t1, t1, StepOk.ofMove { st := some .ok } _ _ (by simp [step, splice_ofList, LSeq.splice, hy]) (by simp)
+        (by simp [LSeq.step, LSeq.splice]) (by simp)⟩
+  | .spliceAt i, hc => by
     by_cases hy : b = []
-    · exact ⟨a, b, StepOk.of { st := some .ok } _ _ m 0 0 (by simp [step, spliceAt_ofList, LSeq.spliceAt, hy]) (by simp)
-        (by intro _; simp [LSeq.step, LSeq.spliceAt, hy]) (Mem.Eff.rfl' m) rfl (by intro _; simp)⟩
+    · exact ⟨a, b, t1, t2, StepOk.of { st := some .ok } _ m 0 0 (by simp [step, spliceAt_ofList, LSeq.spliceAt, hy]) (by simp)
+        (by intro _; simp [LSeq.step, LSeq.spliceAt, hy]) (Mem.Eff.rfl' t1 m) rfl (by intro _; simp)⟩
     · by_cases hi : i < a.length
-      · exact ⟨a.take i ++ b ++ a.drop i, [], StepOk.of { st := some .ok } _ _ m 0 0
+      · have ht : t1 = t2 := hc (Or.inr ⟨i, rfl⟩)
+        subst ht
+        exact ⟨a.take i ++ b ++ a.drop i, [], t1, t1, StepOk.ofMove { st := some .ok } _ _
           (by simp [step, spliceAt_ofList, LSeq.spliceAt, hy, hi]) (by simp)
-          (by intro _; simp [LSeq.step, LSeq.spliceAt, hy, hi]) (Mem.Eff.rfl' m)
-          (by simp [List.length_take, List.length_drop]; omega) (by intro _; simp)⟩
-      · exact ⟨a, b, StepOk.of { st := some .errOutOfRange } _ _ m 0 0
+          (by simp [LSeq.step, LSeq.spliceAt, hy, hi])
+          (by simp [List.length_take, List.length_drop]; omega)⟩
+      · exact ⟨a, b, t1, t2, StepOk.of { st := some .errOutOfRange } _ m 0 0
           (by simp [step, spliceAt_ofList, LSeq.spliceAt, hy, hi]) (by simp)
-          (by intro _; simp [LSeq.step, LSeq.spliceAt, hy, hi]) (Mem.Eff.rfl' m) rfl (by intro _; simp)⟩
-  | .remove x => by
+          (by intro _; simp [LSeq.step, LSeq.spliceAt, hy, hi]) (Mem.Eff.rfl' t1 m) rfl (by intro _; simp)⟩
+  | .remove x, _ => by
     by_cases hx : x ∈ a
     · have hpos : 0 < a.length := List.length_pos_of_mem hx
-      exact ⟨a.erase x, b, StepOk.of { st := some .ok, val := some x } _ _ m.free 0 1
+      exact ⟨a.erase x, b, t1, t2, StepOk.of { st := some .ok, val := some x } _ (m.freeT t1) 0 1
         (by simp [step, remove_ofList, LSeq.remove, hx]) (by simp)
-        (by intro _; simp [LSeq.step, LSeq.remove, hx]) (Mem.eff_free m (by omega))
+        (by intro _; simp [LSeq.step, LSeq.remove, hx]) (Mem.eff_free t1 m (by omega))
         (by rw [List.length_erase_of_mem hx]; omega) (by intro _; simp)⟩
-    · exact ⟨a, b, StepOk.of { st := some .errValueNotFound } _ _ m 0 0
+    · exact ⟨a, b, t1, t2, StepOk.of { st := some .errValueNotFound } _ m 0 0
         (by simp [step, remove_ofList, LSeq.remove, hx]) (by simp)
-        (by intro _; simp [LSeq.step, LSeq.remove, hx]) (Mem.Eff.rfl' m) rfl (by intro _; simp)⟩
-  | .removeAt i => by
+        (by intro _; simp [LSeq.step, LSeq.remove, hx]) (Mem.Eff.rfl' t1 m) rfl (by intro _; simp)⟩
+  | .removeAt i, _ => by
     by_cases hi : i < a.length
-    · exact ⟨a.eraseIdx i, b, StepOk.of { st := some .ok, val := some (a.getD i 0) } _ _ m.free 0 1
+    · exact ⟨a.eraseIdx i, b, t1, t2, StepOk.of { st := some .ok, val := some (a.getD i 0) } _ (m.freeT t1) 0 1
         (by simp [step, removeAt_ofList, LSeq.removeAt, hi]) (by simp)
-        (by intro _; simp [LSeq.step, LSeq.removeAt, hi]) (Mem.eff_free m (by omega))
+        (by intro _; simp [LSeq.step, LSeq.removeAt, hi]) (Mem.eff_free t1 m (by omega))
         (by rw [List.length_eraseIdx, if_pos hi]; omega) (by intro _; simp)⟩
-    · exact ⟨a, b, StepOk.of { st := some .errOutOfRange } _ _ m 0 0
+    · exact ⟨a, b, t1, t2, StepOk.of { st := some .errOutOfRange } _ m 0 0
         (by simp [step, removeAt_ofList, LSeq.removeAt, hi]) (by simp)
-        (by intro _; simp [LSeq.step, LSeq.removeAt, hi]) (Mem.Eff.rfl' m) rfl (by intro _; simp)⟩
-  | .removeFirst => by
+        (by intro _; simp [LSeq.step, LSeq.removeAt, hi]) (Mem.Eff.rfl' t1 m) rfl (by intro _; simp)⟩
+  | .removeFirst, _ => by
     cases a with
-    | nil => exact ⟨[], b, StepOk.of { st := some .errValueNotFound } _ _ m 0 0
+    | nil => exact ⟨[], b, t1, t2, StepOk.of { st := some .errValueNotFound } _ m 0 0
         (by simp [step, removeFirst_ofList, LSeq.removeFirst]) (by simp)
-        (by intro _; simp [LSeq.step, LSeq.removeFirst]) (Mem.Eff.rfl' m) rfl (by intro _; simp)⟩
-    | cons y ys => exact ⟨ys, b, StepOk.of { st := some .ok, val := some y } _ _ m.free 0 1
+        (by intro _; simp [LSeq.step, LSeq.removeFirst]) (Mem.Eff.rfl' t1 m) rfl (by intro _; simp)⟩
+    | cons y ys => exact ⟨ys, b, t1, t2, StepOk.of { st := some .ok, val := some y } _ (m.freeT t1) 0 1
         (by simp [step, removeFirst_ofList, LSeq.removeFirst]) (by simp)
-        (by intro _; simp [LSeq.step, LSeq.removeFirst]) (Mem.eff_free m (by simp at hlive; omega))
+        (by intro _; simp [LSeq.step, LSeq.removeFirst]) (Mem.eff_free t1 m (by simp at hlive; omega))
         (by simp; omega) (by intro _; simp)⟩
-  | .removeLast => by
+  | .removeLast, _ => by
     by_cases ha : a = []
     · subst ha
-      exact ⟨[], b, StepOk.of { st := some .errValueNotFound } _ _ m 0 0
+      exact ⟨[], b, t1, t2, StepOk.of { st := some .errValueNotFound } _ m 0 0
         (by simp [step, removeLast_ofList, LSeq.removeLast]) (by simp)
-        (by intro _; simp [LSeq.step, LSeq.removeLast]) (Mem.Eff.rfl' m) rfl (by intro _; simp)⟩
+        (by intro _; simp [LSeq.step, LSeq.removeLast]) (Mem.Eff.rfl' t1 m) rfl (by intro _; simp)⟩
     · have hpos : 0 < a.length := List.length_pos_iff.2 ha
-      exact ⟨a.dropLast, b, StepOk.of { st := some .ok, val := some (a.getLastD 0) } _ _ m.free 0 1
+      exact ⟨a.dropLast, b, t1, t2, StepOk.of { st := some .ok, val := some (a.getLastD 0) } _ (m.freeT t1) 0 1
         (by simp [step, removeLast_ofList, LSeq.removeLast, ha]) (by simp)
-        (by intro _; simp [LSeq.step, LSeq.removeLast, ha]) (Mem.eff_free m (by omega))
+        (by intro _; simp [LSeq.step, LSeq.removeLast, ha]) (Mem.eff_free t1 m (by omega))
         (by simp; omega) (by intro _; simp)⟩
-  | .removeAll => by
+  | .removeAll, _ => by
     by_cases ha : a = []
     · subst ha
-      exact ⟨[], b, StepOk.of { st := some .errValueNotFound } _ _ m 0 0
+      exact ⟨[], b, t1, t2, StepOk.of { st := some .errValueNotFound } _ m 0 0
         (by simp [step, removeAll_ofList, LSeq.removeAll, Mem.freeN]) (by simp)
-        (by intro _; simp [LSeq.step, LSeq.removeAll]) (Mem.Eff.rfl' m) rfl (by intro _; simp)⟩
-    · exact ⟨[], b, StepOk.of { st := some .ok, vals := a } _ _ (Mem.freeN a.length m) 0 a.length
+        (by intro _; simp [LSeq.step, LSeq.removeAll]) (Mem.Eff.rfl' t1 m) rfl (by intro _; simp)⟩
+    · exact ⟨[], b, t1, t2, StepOk.of { st := some .ok, vals := a } _ (Mem.freeN t1 a.length m) 0 a.length
         (by simp [step, removeAll_ofList, LSeq.removeAll, ha]) (by simp)
-        (by intro _; simp [LSeq.step, LSeq.removeAll, ha]) (Mem.eff_freeN m _ (by omega)) (by simp; omega) (by intro _; simp)⟩
-  | .replaceAt x i => by
+        (by intro _; simp [LSeq.step, LSeq.removeAll, ha]) (Mem.eff_freeN t1 m _ (by omega)) (by simp; omega) (by intro _; simp)⟩
+  | .replaceAt x i, _ => by
     by_cases hi : i < a.length
-    · exact ⟨a.set i x, b, StepOk.of { st := some .ok, val := some (a.getD i 0) } _ _ m 0 0
+    · exact ⟨a.set i x, b, t1, t2, StepOk.of { st := some .ok, val := some (a.getD i 0) } _ m 0 0
         (by simp [step, replaceAt_ofList, LSeq.replaceAt, hi]) (by simp)
-        (by intro _; simp [LSeq.step, LSeq.replaceAt, hi]) (Mem.Eff.rfl' m) (by simp) (by intro _; simp)⟩
-    · exact ⟨a, b, StepOk.of { st := some .errOutOfRange } _ _ m 0 0
+        (by intro _; simp [LSeq.step, LSeq.replaceAt, hi]) (Mem.Eff.rfl' t1 m) (by simp) (by intro _; simp)⟩
+    · exact ⟨a, b, t1, t2, StepOk.of { st := some .errOutOfRange } _ m 0 0
         (by simp [step, replaceAt_ofList, LSeq.replaceAt, hi]) (by simp)
-        (by intro _; simp [LSeq.step, LSeq.replaceAt, hi]) (Mem.Eff.rfl' m) rfl (by intro _; simp)⟩
-  | .reverse => ⟨a.reverse, b, StepOk.of {} _ _ m 0 0 (by simp [step, reverse_ofList]) (by simp)
-        (by intro _; simp [LSeq.step]) (Mem.Eff.rfl' m) (by simp) (by intro _; simp)⟩
-  | .filterMut => by
+        (by intro _; simp [LSeq.step, LSeq.replaceAt, hi]) (Mem.Eff.rfl' t1 m) rfl (by intro _; simp)⟩
+  | .reverse, _ => ⟨a.reverse, b, t1, t2, StepOk.of {} _ m 0 0 (by simp [step, reverse_ofList]) (by simp)
+        (by intro _; simp [LSeq.step]) (Mem.Eff.rfl' t1 m) (by simp) (by intro _; simp)⟩
+  | .filterMut, _ => by
     have hle : (a.filter P.pred).length ≤ a.length := List.length_filter_le _ _
     by_cases ha : a = []
     · subst ha
-      exact ⟨[], b, StepOk.of { st := some .errOutOfRange } _ _ m 0 0
+      exact ⟨[], b, t1, t2, StepOk.of { st := some .errOutOfRange } _ m 0 0
         (by simp [step, filterMut_ofList, LSeq.filterMut, Mem.freeN]) (by simp)
-        (by intro _; simp [LSeq.step, LSeq.filterMut]) (Mem.Eff.rfl' m) rfl (by intro _; simp)⟩
-    · exact ⟨a.filter P.pred, b, StepOk.of { st := some .ok } _ _ (Mem.freeN (a.length - (a.filter P.pred).length) m) 0
+        (by intro _; simp [LSeq.step, LSeq.filterMut]) (Mem.Eff.rfl' t1 m) rfl (by intro _; simp)⟩
+    · exact ⟨a.filter P.pred, b, t1, t2, StepOk.of { st := some .ok } _ (Mem.freeN t1 (a.length - (a.filter P.pred).length) m) 0
           (a.length - (a.filter P.pred).length)
         (by simp [step, filterMut_ofList, LSeq.filterMut, ha]) (by simp)
-        (by intro _; simp [LSeq.step, LSeq.filterMut, ha]) (Mem.eff_freeN m _ (by omega)) (by omega) (by intro _; simp)⟩
-  | .getFirst => ⟨a, b, StepOk.of { st := some (LSeq.getFirst a).1, val := (LSeq.getFirst a).2 } _ _ m 0 0
+        (by intro _; simp [LSeq.step, LSeq.filterMut, ha]) (Mem.eff_freeN t1 m _ (by omega)) (by omega) (by intro _; simp)⟩
+  | .getFirst, _ => ⟨a, b, t1, t2, StepOk.of { st := some (LSeq.getFirst a).1, val := (LSeq.getFirst a).2 } _ m 0 0
         (by simp [step, getFirst_ofList]) (by cases a <;> simp [LSeq.getFirst])
-        (by intro _; simp [LSeq.step]) (Mem.Eff.rfl' m) rfl (by intro _; cases a <;> simp [LSeq.getFirst]) (by cases a <;> simp [LSeq.getFirst])⟩
-  | .getLast => ⟨a, b, StepOk.of { st := some (LSeq.getLast a).1, val := (LSeq.getLast a).2 } _ _ m 0 0
+        (by intro _; simp [LSeq.step]) (Mem.Eff.rfl' t1 m) rfl (by intro _; cases a <;> simp [LSeq.getFirst]) (by cases a <;> simp [LSeq.getFirst])⟩
+  | .getLast, _ => ⟨a, b, t1, t2, StepOk.of { st := some (LSeq.getLast a).1, val := (LSeq.getLast a).2 } _ m 0 0
         (by simp [step, getLast_ofList]) (by by_cases h : a = [] <;> simp [LSeq.getLast, h])
-        (by intro _; simp [LSeq.step]) (Mem.Eff.rfl' m) rfl (by intro _; by_cases h : a = [] <;> simp [LSeq.getLast, h]) (by by_cases h : a = [] <;> simp [LSeq.getLast, h])⟩
-  | .getAt i => ⟨a, b, StepOk.of { st := some (LSeq.getAt a i).1, val := (LSeq.getAt a i).2 } _ _ m 0 0
+        (by intro _; simp [LSeq.step]) (Mem.Eff.rfl' t1 m) rfl (by intro _; by_cases h : a = [] <;> simp [LSeq.getLast, h]) (by by_cases h : a = [] <;> simp [LSeq.getLast, h])⟩
+  | .getAt i, _ => ⟨a, b, t1, t2, StepOk.of { st := some (LSeq.getAt a i).1, val := (LSeq.getAt a i).2 } _ m 0 0
         (by simp [step, getAt_ofList]) (by by_cases h : i < a.length <;> simp [LSeq.getAt, h])
-        (by intro _; simp [LSeq.step]) (Mem.Eff.rfl' m) rfl (by intro _; by_cases h : i < a.length <;> simp [LSeq.getAt, h]) (by by_cases h : i < a.length <;> simp [LSeq.getAt, h])⟩
-  | .indexOf x => ⟨a, b, StepOk.of { st := some (LSeq.indexOf LSeq.cmpNum a x).1, val := (LSeq.indexOf LSeq.cmpNum a x).2 } _ _ m 0 0
+        (by intro _; simp [LSeq.step]) (Mem.Eff.rfl' t1 m) rfl (by intro _; by_cases h : i < a.length <;> simp [LSeq.getAt, h]) (by by_cases h : i < a.length <;> simp [LSeq.getAt, h])⟩
+  | .indexOf x, _ => ⟨a, b, t1, t2, StepOk.of { st := some (LSeq.indexOf LSeq.cmpNum a x).1, val := (LSeq.indexOf LSeq.cmpNum a x).2 } _ m 0 0
         (by simp [step, indexOf_ofList])
         (by simp only [LSeq.indexOf]; cases a.findIdx? fun y => LSeq.cmpNum y x == 0 <;> simp)
-        (by intro _; simp [LSeq.step]) (Mem.Eff.rfl' m) rfl (by intro _; simp only [LSeq.indexOf]; cases a.findIdx? fun y => LSeq.cmpNum y x == 0 <;> simp) (by simp only [LSeq.indexOf]; cases a.findIdx? fun y => LSeq.cmpNum y x == 0 <;> simp)⟩
-  | .contains x => ⟨a, b, StepOk.of { val := some (LSeq.contains a x) } _ _ m 0 0
-        (by simp [step, contains_ofList]) (by simp) (by intro _; simp [LSeq.step]) (Mem.Eff.rfl' m) rfl (by intro _; simp)⟩
-  | .containsValue x => ⟨a, b, StepOk.of { val := some (LSeq.containsValue P.cmp a x) } _ _ m 0 0
-        (by simp [step, containsValue_ofList]) (by simp) (by intro _; simp [LSeq.step]) (Mem.Eff.rfl' m) rfl (by intro _; simp)⟩
-  | .size => ⟨a, b, StepOk.of { val := some a.length } _ _ m 0 0
-        (by simp [step]) (by simp) (by intro _; simp [LSeq.step]) (Mem.Eff.rfl' m) rfl (by intro _; simp)⟩
-  | .toArray => by
-    by_cases hal : m.alloc.1 = true
-    · have e1 := Mem.eff_alloc_true m hal
-      have e2 := Mem.eff_free m.alloc.2 (by have := e1.live; omega)
-      exact ⟨a, b, StepOk.of { st := some .ok, vals := a } _ _ m.alloc.2.free (1 + 0) (0 + 1)
+        (by intro _; simp [LSeq.step]) (Mem.Eff.rfl' t1 m) rfl (by intro _; simp only [LSeq.indexOf]; cases a.findIdx? fun y => LSeq.cmpNum y x == 0 <;> simp) (by simp only [LSeq.indexOf]; cases a.findIdx? fun y => LSeq.cmpNum y x == 0 <;> simp)⟩
+  | .contains x, _ => ⟨a, b, t1, t2, StepOk.of { val := some (LSeq.contains a x) } _ m 0 0
+        (by simp [step, contains_ofList]) (by simp) (by intro _; simp [LSeq.step]) (Mem.Eff.rfl' t1 m) rfl (by intro _; simp)⟩
+  | .containsValue x, _ => ⟨a, b, t1, t2, StepOk.of { val := some (LSeq.containsValue P.cmp a x) } _ m 0 0
+        (by simp [step, containsValue_ofList]) (by simp) (by intro _; simp [LSeq.step]) (Mem.Eff.rfl' t1 m) rfl (by intro _; simp)⟩
+  | .size, _ => ⟨a, b, t1, t2, StepOk.of { val := some a.length } _ m 0 0
+        (by simp [step]) (by simp) (by intro _; simp [LSeq.step]) (Mem.Eff.rfl' t1 m) rfl (by intro _; simp)⟩
+  | .toArray, _ => by
+    by_cases hal : (m.allocT t1).1 = true
+    · have e1 := Mem.eff_alloc_true t1 m hal
+      have e2 := Mem.eff_free t1 (m.allocT t1).2 (by have := e1.live; omega)
+      exact ⟨a, b, t1, t2, StepOk.of { st := some .ok, vals := a } _ ((m.allocT t1).2.freeT t1) (1 + 0) (0 + 1)
         (by simp [step, toArray_ofList, LSeq.toArray, hal]) (by simp)
         (by intro _; simp [LSeq.step, LSeq.toArray]) (e1.trans e2) (by omega) (by intro _; simp)⟩
-    · have hal' : m.alloc.1 = false := by simpa using hal
-      exact ⟨a, b, StepOk.of { st := some .errAlloc } _ _ m.alloc.2 0 0
+    · have hal' : (m.allocT t1).1 = false := by simpa using hal
+      exact ⟨a, b, t1, t2, StepOk.of { st := some .errAlloc } _ (m.allocT t1).2 0 0
         (by simp [step, toArray_ofList, LSeq.toArray, hal']) (by simp) (by simp)
-        (Mem.eff_alloc_false m hal') rfl (by intro hs; simp_all [Mem.alloc_nil m hs])⟩
-  | .foreach => ⟨a, b, StepOk.of { vals := a } _ _ m 0 0
-        (by simp [step, foreach_ofList]) (by simp) (by intro _; simp [LSeq.step]) (Mem.Eff.rfl' m) rfl (by intro _; simp)⟩
-  | .swapRoles => ⟨b, a, StepOk.of {} _ _ m 0 0
-        (by simp [step]) (by simp) (by intro _; simp [LSeq.step]) (Mem.Eff.rfl' m) (by omega) (by intro _; simp)⟩
+        (Mem.eff_alloc_false t1 m hal') rfl (by intro hs; simp_all [Mem.allocT_nil m t1 hs])⟩
+  | .foreach, _ => ⟨a, b, t1, t2, StepOk.of { vals := a } _ m 0 0
+        (by simp [step, foreach_ofList]) (by simp) (by intro _; simp [LSeq.step]) (Mem.Eff.rfl' t1 m) rfl (by intro _; simp)⟩
+  | .swapRoles, _ => by
+    refine ⟨b, a, t2, t1, ⟨by simp [step], Or.inr ⟨rfl, rfl⟩, by simp [step], by intro _; simp [step, LSeq.step], rfl,
+      Mem.Frame.rfl' t1 m, ?_, fun hs => ⟨hs, by simp [step]⟩, by simp [step]⟩⟩
+    intro t
+    simp only [step, ownedBy]
+    omega
+
+theorem step_ok (P : Params) (t1 t2 : Triple) (a b : List Nat) (m : Mem) (hlive : ∀ t, ownedBy t1 t2 a b t ≤ m.liveT t)
+    (op : Op) (hc : SpliceOk t1 t2 op) :
+    ∃ a' b' t1' t2', StepOk false P t1 t2 a b op m (step P (ofList t1 a, ofList t2 b) op m) a' b' t1' t2' :=
+  step_ok_aux P t1 t2 a b m (Nat.le_trans (ownedBy_dest_le t1 t2 a b) (hlive t1)) op hc
 end SList
 end CC
